@@ -108,6 +108,12 @@ def map_method(eng, st, base: Ptr, m: AbsMap, name, A, n):
             eng.oblige(st, 'II', f'{m.name}.erase:iterator-is-valid', m.contains(key), n.get('line'))
         st.heap[oid] = m.remove(key)
         return [(st, None)]
+    if name == 'size':
+        # the cardinality is not tracked: an unknown non-negative number
+        from .model import Int, fresh
+        sz = fresh(f'{m.name}.size', Int)
+        st.pc.append(sz >= 0)
+        return [(st, sz)]
     raise Unsupported(f'map method {name}')
 
 
